@@ -146,7 +146,98 @@ def root(src: {_c(rng, ['f32[%d]' % n, '[f32][%d]' % n])}, dst: {_c(rng, ['f32[%
     return GenProgram(HEADER + text, "root", ["cp"], [], {"template": "const_windows", "prefer_ops": ["inline", "stage_mem", "inline_window"]})
 
 
-ALL = [t_negdiv, t_negdiv, t_window_chain, t_window_chain, t_scoped_allocs, t_const_windows]
+
+
+
+def t_mixed_prec(rng):
+    """assignments and reductions between buffers of different precisions: the emitted C casts
+    the right-hand side to the destination's type (`dst += (T)(rhs)`), which truncates toward
+    zero for integer destinations and rounds for f32 <- f64"""
+    types = {"a": "f32", "b": "f64", "c": "i8", "d": "i32", "e": _c(rng, ["ui8", "ui16", "f32"])}
+    names = list(types)
+    stmts = []
+    for _ in range(_c(rng, [2, 3, 4, 5])):
+        dst, src = rng.sample(names, 2)
+        op = _c(rng, ["=", "+=", "+="])
+        fl = lambda n: types[n] in ("f32", "f64")
+        rhs = _c(rng, [f"{src}[i]", f"{src}[i]", f"{src}[i] * 2.0" if fl(src) else f"{src}[i] + {src}[i]", f"-{src}[i]" if not types[src].startswith("ui") else f"{src}[i]", f"{src}[i] + 0.5" if fl(src) else f"{src}[i]"])
+        stmts.append(f"{dst}[i] {op} {rhs}")
+    # at least one reduction whose cast matters: integer += float (truncation) or f32 += f64 (rounding)
+    dst, src = _c(rng, [("c", "a"), ("d", "a"), ("c", "b"), ("d", "b"), ("a", "b")])
+    stmts.insert(rng.randrange(len(stmts) + 1), f"{dst}[i] += {_c(rng, [f'{src}[i]', f'-{src}[i]', f'{src}[i] * 0.5'])}")
+    body = "\n        ".join(stmts)
+    scal = ""
+    sarg = ""
+    if rng.random() < 0.4:
+        sarg = ", s: f64, t: f32"
+        scal = "\n    t = s\n    s += a[0]"
+    text = f"""@proc
+def root(n: size, a: f32[n], b: f64[n], c: i8[n], d: i32[n], e: {types['e']}[n]{sarg}):
+    for i in seq(0, n):
+        {body}{scal}
+"""
+    return GenProgram(HEADER + text, "root", [], [], {"template": "mixed_prec"})
+
+
+def t_index_identities(rng):
+    """index expressions containing the identity / absorbing forms that the backend's index
+    simplifier folds (0 + e, e + 0, e - 0, 0 - e, 0 * e, 1 * e, e / 1, -(-e), constants on both
+    sides) in buffer subscripts, window bounds and call arguments; such forms are what
+    substituting 0 or 1 for an iterator (unroll_loop, cut_loop, partial_eval) leaves behind"""
+    N = _c(rng, [8, 9, 12])
+    H = _c(rng, [3, 4])  # j in [0, H)
+
+    def f(v):
+        # each form has a value in [0, N) for 0 <= v < H
+        return _c(
+            rng,
+            [
+                f"0 - {v} + {H}",
+                f"{H} - {v} - 0",
+                f"0 + {v}",
+                f"{v} + 0",
+                f"1 * {v} + 0",
+                f"{v} * 1",
+                f"{v} / 1",
+                f"-(-{v})",
+                f"0 - (0 - {v})",
+                f"{H - 1} - (0 - {v})",
+                f"0 * {v} + {_c(rng, [0, 1, 2])}",
+                f"(0 - {v}) + {N - 1}",
+                f"{v} * 1 + 0 * {v}",
+                f"-{v} + {H}",
+                f"0 - {v} + {v} + {v}",
+                f"(0 + {v}) % {N}",
+                f"(0 - {v} + {N}) % {N}",
+                f"(0 - {v}) / 2 + {H}",
+            ],
+        )
+
+    lines = []
+    for _ in range(_c(rng, [2, 3, 4])):
+        lines.append(f"y[{f('j')}] {_c(rng, ['=', '+='])} x[{f('j')}]")
+    if rng.random() < 0.6:
+        la, lb = f("j"), f("j")
+        lines.append(f"cp(2, y[{la} : ({la}) + 2], x[{lb} : ({lb}) + 2])")
+    body = "\n        ".join(lines)
+    # the same forms with the iterator of a second loop that scheduling may unroll / cut
+    tail = f"y[{f('i')}] = x[i + (0 - 0)]"
+    text = f"""@proc
+def cp(n: size, dst: [f32][n], src: [f32][n]):
+    for k in seq(0, n):
+        dst[0 + k] = src[k - 0]
+
+
+@proc
+def root(x: f32[{N + 2}], y: f32[{N + 2}]):
+    for j in seq(0, {H}):
+        {body}
+    for i in seq(0, {H}):
+        {tail}
+"""
+    return GenProgram(HEADER + text, "root", ["cp"], [], {"template": "index_identities", "prefer_ops": ["unroll_loop", "cut_loop", "simplify", "inline"]})
+
+ALL = [t_negdiv, t_negdiv, t_window_chain, t_window_chain, t_scoped_allocs, t_const_windows, t_mixed_prec, t_mixed_prec, t_index_identities, t_index_identities]
 
 
 def any_ctemplate(rng):
